@@ -18,6 +18,7 @@ import (
 	"os/exec"
 	"path/filepath"
 	"regexp"
+	"runtime"
 	"sort"
 	"strconv"
 	"strings"
@@ -130,6 +131,9 @@ func replay(p *props.Prop) int {
 	if v.Phase < 0 || v.Phase >= len(p.Phases) {
 		fmt.Printf("INCONCLUSIVE property=%s reason=replay-phase-out-of-range\n", p.ID)
 		return 2
+	}
+	if v.Env == props.EnvOneProc {
+		runtime.GOMAXPROCS(1)
 	}
 	if v.Env == props.EnvEastAsian {
 		// the case first runs with the setting off (as it did earlier in the process), judged by a recorder nobody reads
